@@ -19,6 +19,7 @@ import (
 	"github.com/wrgl/wrgl/pkg/pbar"
 	"github.com/wrgl/wrgl/pkg/slice"
 	"github.com/wrgl/wrgl/pkg/testutils"
+	"github.com/wrgl/wrgl/pkg/vhook"
 )
 
 func getRunSize() (uint64, error) {
@@ -367,6 +368,7 @@ func (s *Sorter) SortedBlocks(ctx context.Context, removedCols map[int]struct{},
 				case <-ctx.Done():
 					return
 				default:
+					vhook.Yield("sorter.send")
 					blocks <- b
 				}
 				offset++
@@ -386,6 +388,7 @@ func (s *Sorter) SortedBlocks(ctx context.Context, removedCols map[int]struct{},
 			case <-ctx.Done():
 				return
 			default:
+				vhook.Yield("sorter.send")
 				blocks <- b
 			}
 		}
